@@ -102,6 +102,18 @@ def run_case(case, ctx):
             ev["count"] = int(cg.sat.model_count(c, assum))
         except Exception as e:
             ev["exc"], ev["count"] = type(e).__name__, -1
+        gates = sorted(n for n in c.nodes() if c.type(n) in ("and", "nand", "or", "nor", "xor", "xnor") and len(c.fanin(n)) >= 2)
+        if gates and not case["assum"] and p["acyc"]:
+            # same object, edited in place, counted again
+            g = gates[len(gates) // 2]
+            c.set_type(g, {"and": "or", "nand": "xor", "or": "nand", "nor": "and", "xor": "nor", "xnor": "and"}[c.type(g)])
+            p2 = proj(c)
+            ev2 = {"kind": "model_count", "c": p2, "assum": [[p2["names"].index(g) + 1, True]], "exc": "", "nontrivial": True}
+            try:
+                ev2["count"] = int(cg.sat.model_count(c, {g: True}))
+            except Exception as e:
+                ev2["exc"], ev2["count"] = type(e).__name__, -1
+            return [ev, ev2]
     elif case["op"] == "signal_probability":
         ev["node"] = case["node"]
         ev["nontrivial"] = p["ty"][case["node"] - 1] not in ("input", "0", "1")
